@@ -278,8 +278,12 @@ impl<T: Numeric> Atomic<T> {
                 .unsync_loaded_locations
                 .track(location, &execution.threads);
 
-            // An unsync load counts as a "read" access
-            state.track_unsync_load(&execution.threads);
+            // An unsync load counts as a "read" access. A destructor that runs
+            // while the thread unwinds from a panic is not checked: a second
+            // panic would abort the process.
+            if !std::thread::panicking() {
+                state.track_unsync_load(&execution.threads);
+            }
 
             trace!(state = ?self.state, "Atomic::unsync_load");
 
@@ -371,8 +375,12 @@ impl<T: Numeric> Atomic<T> {
             state
                 .unsync_mut_locations
                 .track(location, &execution.threads);
-            // Verify the mutation may happen
-            state.track_unsync_mut(&execution.threads);
+            // Verify the mutation may happen (not while the thread unwinds from
+            // a panic, see `unsync_load`)
+            if !std::thread::panicking() {
+                state.track_unsync_mut(&execution.threads);
+            }
+
             state.is_mutating = true;
 
             trace!(state = ?self.state, "Atomic::with_mut");
